@@ -85,6 +85,7 @@ PROPS["C11"] = {
         "GstProofs.C11.prodMatVec", "GstProofs.C11.prodVecMat", "GstProofs.C11.linear_combination",
         "GstProofs.C11.prodScalar", "GstProofs.C11.row_col_scaling", "GstProofs.C11.prodNorm_transpose",
         "GstProofs.C11.inverse_unique", "GstProofs.C11.checkSolve_sound", "GstProofs.C11.sort_perm",
+        "GstProofs.C11.inverse_certificate_bound", "GstProofs.C11.solve_certificate_bound", "GstProofs.C11.inverse_certificate_exact",
         "GstProofs.LinAlg.toMatrix_mul", "GstProofs.LinAlg.toMatrix_id", "GstProofs.LinAlg.toMatrix_diag",
     ],
     "harnesses": ["vh_c11"],
@@ -92,7 +93,7 @@ PROPS["C11"] = {
     "flavour": {"thorough": "asan"},
     "env": {"thorough": {"ASAN_OPTIONS": "detect_leaks=0"}},
     "technique": "Lean 4: every matrix operation of the model is its textbook entry-wise definition and is proved equal to the corresponding Mathlib Matrix operation for all shapes (bridge theorems); exact differential correspondence on integer/dyadic matrices for five storage classes and thread counts 1-16; residual certificates (checked in exact rational arithmetic) for inverse/solve/Cholesky/eigen; AddressSanitizer build in the thorough tier",
-    "level_text": "Partial proof: products (all transposition flags), transposition, linear combinations, scalings, congruence products and vector products of the model are theorems (equal to Mathlib's Matrix operations, every shape); the model is tied to all storage classes by an exact differential run (sums and products are exact in doubles on the generated contents); inversion, solve, Cholesky and eigen-decomposition are checked by verified-definition residual certificates; thread independence is observed (each case runs at a random thread count 1-16), not proved.",
+    "level_text": "Partial proof: products (all transposition flags), transposition, linear combinations, scalings, congruence products and vector products of the model are theorems (equal to Mathlib's Matrix operations, every shape); the model is tied to all storage classes by an exact differential run (sums and products are exact in doubles on the generated contents); inversion, solve, Cholesky and eigen-decomposition are checked by verified-definition residual certificates, whose meaning is a theorem for inversion and solve (a residual below eps bounds the distance to the true inverse / solution by the absolute row sums of the inverse times eps: inverse_certificate_bound, solve_certificate_bound); thread independence is observed (each case runs at a random thread count 1-16), not proved.",
     "level_note": "Trusted: Lean kernel + 3 standard axioms; Eigen/CSparse kernels are not modelled (only their results are compared/certified); OpenMP scheduling is observed only; log-determinant and simulation of CholeskyDense are not covered.",
     "rule": "random matrices 1-7 x 1-7 (square, non-square, 1xN, Nx1; dense or half-empty; small integers or dyadics k/4) in storage rect/square/symm/sparse-Eigen/sparse-cs at a random thread count in {1,2,4,8,16}; per matrix: transpose, mat-vec and vec-mat products with both flags, mat-mat product with the 4 flag combinations, linear combination, scalar ops, row/column scaling and division, row/column/diagonal assignment, congruence products, then invert/solve/Cholesky/eigen certificates on SPD matrices, solve/invert certificates on symmetric indefinite (bordered, zero diagonal term) and negative definite matrices, and 16 vector helpers. distinct = distinct request line; trivial = 1x1 matrices",
     "trivial": lambda line: " 1 1 " in line and line.split(" ")[1] not in ("v1", "v2", "vl"),
